@@ -14,10 +14,15 @@ LOG=$D/confirm.txt
 say() { echo "$@" | tee -a $LOG; }
 cd $W || exit 2
 git checkout -q -- . ; git clean -fdq -e out
-demo_dir=$(python3 -c "import json;print(json.load(open('$D/meta.json'))['demo_dir'])")
+demo_dir=$(python3 -c "import json;print(json.load(open('$D/meta.json')).get('demo_dir','.'))")
 demo_file=$(ls $D | grep -E '_test\.go$' | head -1)
 pkgs=$(git apply --numstat $D/patch.diff | awk '{print $3}' | xargs -n1 dirname | sort -u | sed 's#^#./#')
 run_demo() {
+  if [ -f $D/demo.sh ]; then
+    (cd $W && rm -f out/wa && sh out/$K/demo.sh 2>&1 | tail -15)
+    (cd $W && sh out/$K/demo.sh >/dev/null 2>&1); rc=$?
+    return $rc
+  fi
   cp $D/$demo_file $W/$demo_dir/zz_seed_demo_test.go
   (cd $W && go test -vet=off -count=1 -run 'Demo|demo' ./$demo_dir/ 2>&1 | tail -15)
   rc=${PIPESTATUS[0]}
